@@ -12,6 +12,83 @@ fn exp_floor_half(n4: i64) -> i64 {
     (n4 + 2).div_euclid(4)
 }
 
+/// every `OtRound` impl at the quarter n4/4
+fn quarter_at(ctx: &mut Ctx, acc: &mut Acc, n4: i64) {
+    acc.evals += 1;
+    let e = exp_floor_half(n4);
+    let (x64, x32) = (n4 as f64 / 4.0, n4 as f32 / 4.0);
+    let r = guard(|| {
+        let a: i16 = x64.ot_round();
+        let b: i16 = x32.ot_round();
+        let c: u16 = x64.ot_round();
+        let d: u16 = x32.ot_round();
+        let f: f64 = x64.ot_round();
+        let g: f32 = x32.ot_round();
+        let p: (i16, i16) = kurbo::Point::new(x64, -x64).ot_round();
+        let v: kurbo::Vec2 = kurbo::Vec2::new(x64, -x64).ot_round();
+        (a, b, c, d, f, g, p, v)
+    });
+    let (a, b, c, d, f, g, p, v) = match r {
+        Ok(t) => t,
+        Err(pi) => {
+            acc.panic(ctx, &pi, "OtRound", "ot_round", None, format!("x={}", x64), json!(null));
+            return;
+        }
+    };
+    let en = exp_floor_half(-n4);
+    let mut bad: Vec<&'static str> = vec![];
+    if e >= i16::MIN as i64 && e <= i16::MAX as i64 {
+        if a as i64 != e {
+            bad.push("f64->i16");
+        }
+        if b as i64 != e {
+            bad.push("f32->i16");
+        }
+        acc.count("otround:i16_compared", 2);
+        if en >= i16::MIN as i64 && en <= i16::MAX as i64 && (p.0 as i64 != e || p.1 as i64 != en) {
+            bad.push("Point->(i16,i16)");
+        }
+    }
+    if e >= 0 && e <= u16::MAX as i64 {
+        if c as i64 != e {
+            bad.push("f64->u16");
+        }
+        if d as i64 != e {
+            bad.push("f32->u16");
+        }
+        acc.count("otround:u16_compared", 2);
+    }
+    if f != e as f64 {
+        bad.push("f64->f64");
+    }
+    if g != e as f32 {
+        bad.push("f32->f32");
+    }
+    if v.x != e as f64 || v.y != en as f64 {
+        bad.push("Vec2->Vec2");
+    }
+    let frac = n4.rem_euclid(4);
+    if frac == 2 {
+        acc.count("otround:halves", 1);
+    }
+    acc.class(30, frac as u8, ((n4 < 0) as u64) << 8 | crate::common::bitlen(n4) as u64);
+    for w in bad {
+        acc.mismatch(ctx, "OtRound", w, None, format!("x={}", x64), json!({"x": x64, "expected": e, "got": {"f64->i16": a, "f32->i16": b, "f64->u16": c, "f32->u16": d, "f64->f64": f, "f32->f32": g}}));
+    }
+}
+
+/// Miri slice: quarters around zero, the i16/u16 range limits and a few random ones.
+pub fn miri(ctx: &mut Ctx, acc: &mut Acc, n: usize) {
+    let mut rng = Rng::derive(ctx.seed, "c15-otround-miri", 0);
+    let mut qs: Vec<i64> = vec![-6, -2, -1, 0, 1, 2, 3, 6, 32767 * 4 + 1, 32767 * 4 + 2, -32768 * 4 - 2, -32768 * 4 - 3, 65535 * 4 + 1, 65535 * 4 + 2];
+    while qs.len() < n.max(14) {
+        qs.push(rng.range(-33_000 * 4, 66_000 * 4));
+    }
+    for n4 in qs {
+        quarter_at(ctx, acc, n4);
+    }
+}
+
 pub fn run(ctx: &mut Ctx, acc: &mut Acc) {
     let mut rng = Rng::derive(ctx.seed, "c15-otround", ctx.shard.0 as u64);
     // every quarter in [-33000, 66000]
@@ -19,67 +96,7 @@ pub fn run(ctx: &mut Ctx, acc: &mut Acc) {
         if !ctx.mine((n4 + 200_000) as usize) {
             continue;
         }
-        acc.evals += 1;
-        let e = exp_floor_half(n4);
-        let (x64, x32) = (n4 as f64 / 4.0, n4 as f32 / 4.0);
-        let r = guard(|| {
-            let a: i16 = x64.ot_round();
-            let b: i16 = x32.ot_round();
-            let c: u16 = x64.ot_round();
-            let d: u16 = x32.ot_round();
-            let f: f64 = x64.ot_round();
-            let g: f32 = x32.ot_round();
-            let p: (i16, i16) = kurbo::Point::new(x64, -x64).ot_round();
-            let v: kurbo::Vec2 = kurbo::Vec2::new(x64, -x64).ot_round();
-            (a, b, c, d, f, g, p, v)
-        });
-        let (a, b, c, d, f, g, p, v) = match r {
-            Ok(t) => t,
-            Err(pi) => {
-                acc.panic(ctx, &pi, "OtRound", "ot_round", None, format!("x={}", x64), json!(null));
-                continue;
-            }
-        };
-        let en = exp_floor_half(-n4);
-        let mut bad: Vec<&'static str> = vec![];
-        if e >= i16::MIN as i64 && e <= i16::MAX as i64 {
-            if a as i64 != e {
-                bad.push("f64->i16");
-            }
-            if b as i64 != e {
-                bad.push("f32->i16");
-            }
-            acc.count("otround:i16_compared", 2);
-            if en >= i16::MIN as i64 && en <= i16::MAX as i64 && (p.0 as i64 != e || p.1 as i64 != en) {
-                bad.push("Point->(i16,i16)");
-            }
-        }
-        if e >= 0 && e <= u16::MAX as i64 {
-            if c as i64 != e {
-                bad.push("f64->u16");
-            }
-            if d as i64 != e {
-                bad.push("f32->u16");
-            }
-            acc.count("otround:u16_compared", 2);
-        }
-        if f != e as f64 {
-            bad.push("f64->f64");
-        }
-        if g != e as f32 {
-            bad.push("f32->f32");
-        }
-        if v.x != e as f64 || v.y != en as f64 {
-            bad.push("Vec2->Vec2");
-        }
-        let frac = n4.rem_euclid(4);
-        if frac == 2 {
-            acc.count("otround:halves", 1);
-        }
-        acc.class(30, frac as u8, ((n4 < 0) as u64) << 8 | crate::common::bitlen(n4) as u64);
-        for w in bad {
-            acc.mismatch(ctx, "OtRound", w, None, format!("x={}", x64), json!({"x": x64, "expected": e, "got": {"f64->i16": a, "f32->i16": b, "f64->u16": c, "f32->u16": d, "f64->f64": f, "f32->f32": g}}));
-        }
+        quarter_at(ctx, acc, n4);
     }
     // large magnitudes (float -> float), quarters up to 2^44 for f64 and 2^20 for f32
     for _ in 0..ctx.tier.pick(100_000, 2_000_000) {
